@@ -36,6 +36,10 @@ pub enum ListKind {
     Empty,
     One,
     Full,
+    /// one instruction of the registry, chosen by index (never NOOP)
+    OneOf(usize),
+    /// a few instructions of the registry starting at an index (NOOP left out)
+    Few(usize, usize),
 }
 
 #[derive(Serialize, Deserialize, Clone, Debug, PartialEq)]
@@ -94,9 +98,11 @@ pub fn generate(seed: u64, prop: &str, thorough: bool) -> EntropySc {
             _ => Case::Bool,
         }
     } else {
-        let list = match r.below(4) {
+        let list = match r.below(7) {
             0 => ListKind::Empty,
             1 => ListKind::One,
+            2 => ListKind::OneOf(r.below(100_000) as usize),
+            3 => ListKind::Few(r.below(100_000) as usize, 2 + r.below(6) as usize),
             _ => ListKind::Full,
         };
         let bindings = *r.pick(&[0usize, 0, 1, 5, 50]);
@@ -188,6 +194,17 @@ fn accepted_counts(s: f32, n: i32) -> Vec<i64> {
     out.dedup();
     out.retain(|c| *c >= 0 && *c <= n as i64);
     out
+}
+
+fn instr_list(kind: &ListKind, full: &[String]) -> Vec<String> {
+    let no_noop: Vec<String> = full.iter().filter(|n| n.as_str() != "NOOP").cloned().collect();
+    match kind {
+        ListKind::Empty => vec![],
+        ListKind::One => vec!["INTEGER.+".to_string()],
+        ListKind::Full => full.to_vec(),
+        ListKind::OneOf(k) => vec![no_noop[k % no_noop.len()].clone()],
+        ListKind::Few(k, n) => (0..*n).map(|j| no_noop[(k + j * 37) % no_noop.len()].clone()).collect(),
+    }
 }
 
 fn is_seam_name(s: &str) -> bool {
@@ -538,8 +555,16 @@ pub fn execute(sc: &EntropySc, full_list: &[String]) -> Executed {
                 let via = *k % 2 == 0;
                 let res = stream(sc, *k, 64, *salt, "C13", "NAME.RANDBOUNDNAME", &mut stats, || {
                     let mut st = PushState::new();
-                    for key in keys {
-                        st.name_bindings.insert(key.clone(), Item::int(1));
+                    for (j, key) in keys.iter().enumerate() {
+                        // values of every kind: a name bound to a name, a list or an instruction is as bound as any
+                        let val = match j % 5 {
+                            0 => Item::int(1),
+                            1 => Item::name(format!("alias{}", j)),
+                            2 => Item::list(vec![Item::int(2), Item::name("q".to_string())]),
+                            3 => Item::instruction("INTEGER.+".to_string()),
+                            _ => Item::float(0.5),
+                        };
+                        st.name_bindings.insert(key.clone(), val);
                     }
                     if via {
                         st.exec_stack.push(Item::instruction("NAME.RANDBOUNDNAME".into()));
@@ -580,11 +605,7 @@ pub fn execute(sc: &EntropySc, full_list: &[String]) -> Executed {
         }
         // ------------------------------------------------------------- C12
         Case::CodeWithSize { points, list, bindings, p_new } => {
-            let lst: Vec<String> = match list {
-                ListKind::Empty => vec![],
-                ListKind::One => vec!["INTEGER.+".to_string()],
-                ListKind::Full => full_list.to_vec(),
-            };
+            let lst: Vec<String> = instr_list(list, full_list);
             let icache = InstructionCache::new(lst.clone());
             let pn = f32::from_bits(*p_new);
             for k in &streams {
@@ -616,11 +637,7 @@ pub fn execute(sc: &EntropySc, full_list: &[String]) -> Executed {
             }
         }
         Case::CodeBounded { max_points, list, bindings } => {
-            let lst: Vec<String> = match list {
-                ListKind::Empty => vec![],
-                ListKind::One => vec!["INTEGER.+".to_string()],
-                ListKind::Full => full_list.to_vec(),
-            };
+            let lst: Vec<String> = instr_list(list, full_list);
             let icache = InstructionCache::new(lst.clone());
             for k in &streams {
                 let st = state_with_bindings(*bindings);
